@@ -33,13 +33,41 @@ var promStages = []cat.Stage{
 	{Op: "StartWith", G: "StartWith", P: 1}, {Op: "EndWith", G: "EndWith", P: 1}, {Op: "Count", G: "Count"}, {Op: "ToSlice", G: "ToSlice"}, {Op: "DefaultIfEmpty", G: "DefaultIfEmpty", P: 9}, {Op: "TakeLast", G: "TakeLast", P: 2},
 }
 
-func GenProm(r *rand.Rand) PromScenario {
+var ctxless = map[string]bool{"StartWith": true, "EndWith": true, "Count": true, "ToSlice": true, "DefaultIfEmpty": true}
+
+func GenProm(r *rand.Rand) PromScenario { return GenPromAt(r, -1) }
+
+// GenPromAt: scenario number idx of a run; every third scenario walks through the arities 1..24 of the typed PipeN family in turn, with an
+// operator that changes the cardinality in the LAST position (what leaves the last operator differs from what enters it).
+func GenPromAt(r *rand.Rand, idx int) PromScenario {
 	sc := PromScenario{NSubs: 1 + r.Intn(3), Conc: r.Intn(3) == 0}
 	n := 1 + r.Intn(5)
+	sweep := idx >= 0 && idx%3 == 0
+	if sweep {
+		n = 1 + (idx/3)%24
+	} else if r.Intn(4) == 0 {
+		n = 6 + r.Intn(19)
+	}
 	for i := 0; i < n; i++ {
-		sc.Chain = append(sc.Chain, promStages[r.Intn(len(promStages))])
+		st := promStages[r.Intn(len(promStages))]
+		for n > 5 && ctxless[st.Op] {
+			// long chains: only operators whose outputs keep the context of a source value (the known finding about the others would hide everything else)
+			st = promStages[r.Intn(len(promStages))]
+		}
+		sc.Chain = append(sc.Chain, st)
+	}
+	if sweep {
+		// values must REACH the last position: the operators before it let everything through
+		pass := []cat.Stage{{Op: "Map", G: "Map"}, {Op: "Map", G: "MapI", F: "I"}, {Op: "TapOnNext", G: "TapOnNext"}, {Op: "ContextWithValue", G: "ContextWithValue"}, {Op: "Serialize", G: "Serialize"}}
+		for i := 0; i < n-1; i++ {
+			sc.Chain[i] = pass[r.Intn(len(pass))]
+		}
+		sc.Chain[n-1] = []cat.Stage{{Op: "Filter", G: "Filter"}, {Op: "Take", G: "Take", P: 1}, {Op: "Skip", G: "Skip", P: 1}}[r.Intn(3)]
 	}
 	m := r.Intn(6)
+	if sweep {
+		m = 3 + r.Intn(3)
+	}
 	for i := 0; i < m; i++ {
 		sc.Script = append(sc.Script, pipe.Notif{K: "N", V: float64([]int{-1, 0, 2, 1, 3}[r.Intn(5)])})
 	}
@@ -62,9 +90,48 @@ func promPipe(cfg roprometheus.CollectorConfig, src ro.Observable[any], ops []ca
 		return roprometheus.Pipe3(cfg, src, ops[0], ops[1], ops[2])
 	case 4:
 		return roprometheus.Pipe4(cfg, src, ops[0], ops[1], ops[2], ops[3])
-	default:
+	case 5:
 		return roprometheus.Pipe5(cfg, src, ops[0], ops[1], ops[2], ops[3], ops[4])
+	case 6:
+		return roprometheus.Pipe6(cfg, src, ops[0], ops[1], ops[2], ops[3], ops[4], ops[5])
+	case 7:
+		return roprometheus.Pipe7(cfg, src, ops[0], ops[1], ops[2], ops[3], ops[4], ops[5], ops[6])
+	case 8:
+		return roprometheus.Pipe8(cfg, src, ops[0], ops[1], ops[2], ops[3], ops[4], ops[5], ops[6], ops[7])
+	case 9:
+		return roprometheus.Pipe9(cfg, src, ops[0], ops[1], ops[2], ops[3], ops[4], ops[5], ops[6], ops[7], ops[8])
+	case 10:
+		return roprometheus.Pipe10(cfg, src, ops[0], ops[1], ops[2], ops[3], ops[4], ops[5], ops[6], ops[7], ops[8], ops[9])
+	case 11:
+		return roprometheus.Pipe11(cfg, src, ops[0], ops[1], ops[2], ops[3], ops[4], ops[5], ops[6], ops[7], ops[8], ops[9], ops[10])
+	case 12:
+		return roprometheus.Pipe12(cfg, src, ops[0], ops[1], ops[2], ops[3], ops[4], ops[5], ops[6], ops[7], ops[8], ops[9], ops[10], ops[11])
+	case 13:
+		return roprometheus.Pipe13(cfg, src, ops[0], ops[1], ops[2], ops[3], ops[4], ops[5], ops[6], ops[7], ops[8], ops[9], ops[10], ops[11], ops[12])
+	case 14:
+		return roprometheus.Pipe14(cfg, src, ops[0], ops[1], ops[2], ops[3], ops[4], ops[5], ops[6], ops[7], ops[8], ops[9], ops[10], ops[11], ops[12], ops[13])
+	case 15:
+		return roprometheus.Pipe15(cfg, src, ops[0], ops[1], ops[2], ops[3], ops[4], ops[5], ops[6], ops[7], ops[8], ops[9], ops[10], ops[11], ops[12], ops[13], ops[14])
+	case 16:
+		return roprometheus.Pipe16(cfg, src, ops[0], ops[1], ops[2], ops[3], ops[4], ops[5], ops[6], ops[7], ops[8], ops[9], ops[10], ops[11], ops[12], ops[13], ops[14], ops[15])
+	case 17:
+		return roprometheus.Pipe17(cfg, src, ops[0], ops[1], ops[2], ops[3], ops[4], ops[5], ops[6], ops[7], ops[8], ops[9], ops[10], ops[11], ops[12], ops[13], ops[14], ops[15], ops[16])
+	case 18:
+		return roprometheus.Pipe18(cfg, src, ops[0], ops[1], ops[2], ops[3], ops[4], ops[5], ops[6], ops[7], ops[8], ops[9], ops[10], ops[11], ops[12], ops[13], ops[14], ops[15], ops[16], ops[17])
+	case 19:
+		return roprometheus.Pipe19(cfg, src, ops[0], ops[1], ops[2], ops[3], ops[4], ops[5], ops[6], ops[7], ops[8], ops[9], ops[10], ops[11], ops[12], ops[13], ops[14], ops[15], ops[16], ops[17], ops[18])
+	case 20:
+		return roprometheus.Pipe20(cfg, src, ops[0], ops[1], ops[2], ops[3], ops[4], ops[5], ops[6], ops[7], ops[8], ops[9], ops[10], ops[11], ops[12], ops[13], ops[14], ops[15], ops[16], ops[17], ops[18], ops[19])
+	case 21:
+		return roprometheus.Pipe21(cfg, src, ops[0], ops[1], ops[2], ops[3], ops[4], ops[5], ops[6], ops[7], ops[8], ops[9], ops[10], ops[11], ops[12], ops[13], ops[14], ops[15], ops[16], ops[17], ops[18], ops[19], ops[20])
+	case 22:
+		return roprometheus.Pipe22(cfg, src, ops[0], ops[1], ops[2], ops[3], ops[4], ops[5], ops[6], ops[7], ops[8], ops[9], ops[10], ops[11], ops[12], ops[13], ops[14], ops[15], ops[16], ops[17], ops[18], ops[19], ops[20], ops[21])
+	case 23:
+		return roprometheus.Pipe23(cfg, src, ops[0], ops[1], ops[2], ops[3], ops[4], ops[5], ops[6], ops[7], ops[8], ops[9], ops[10], ops[11], ops[12], ops[13], ops[14], ops[15], ops[16], ops[17], ops[18], ops[19], ops[20], ops[21], ops[22])
+	case 24:
+		return roprometheus.Pipe24(cfg, src, ops[0], ops[1], ops[2], ops[3], ops[4], ops[5], ops[6], ops[7], ops[8], ops[9], ops[10], ops[11], ops[12], ops[13], ops[14], ops[15], ops[16], ops[17], ops[18], ops[19], ops[20], ops[21], ops[22], ops[23])
 	}
+	panic("verif: no PipeN for this arity")
 }
 
 func RunProm(lg *rec.Log, sc PromScenario, seed int64) []rec.Ev {
